@@ -57,11 +57,18 @@ def check(program, ex):
             else:
                 if h != ["FAILED", out]:
                     v.append(f"child {m} raised {out} but its handle reports {h}")
-    for e in log:
+    for i, e in enumerate(log):
         if e[2] == "p" and "handle" in e[5]:
             hn = e[5]["handle"][2:]
             t = tasks.get(hn, {})
             st = e[5]["st"]
-            if "te" not in t:
+            if "te" not in t or t["te"] > i:
                 v.append(f"handle.wait() of {hn} returned before the task ended ({st})")
+                continue
+            out = t["outcome"]
+            want = (["FINISHED", out[1]] if out[0] == "ok" else
+                    ["CANCELLED"] if out[0] == "cancel" else ["FAILED", out])
+            if st != want:
+                v.append(f"handle of {hn} read right after wait() returned reports {st}, the "
+                         f"task ended with {out}")
     return v
